@@ -575,6 +575,52 @@ def t_json_roundtrip(t):
 KINDS.update({"json_roundtrip": t_json_roundtrip})
 
 
+def _wire_field(x, want):
+    if x is None:
+        return "-"
+    if not isinstance(x, want) or isinstance(x, bool):
+        raise TypeError("field of unexpected type: %r" % (x,))
+    return "=" + str(x)
+
+
+def t_json_items(t):
+    """every code section of a document, item by item, through the real build_asm_bytecode (with its PUSHLIB table) and to_json:
+    wire forms of the items, of the AsmBytecode objects and of the items written back (C15, Models/JsonItem.lean)"""
+    import json as _json
+    import docrun
+    from sfs_generator import parser_asm
+    impl.constants._set_push0(bool(t.get("push0", True)))
+    doc = _json.loads(t["text"])
+    out = []
+    for path, items in docrun.code_sections(doc):
+        try:
+            win = "\x1e".join("\x1f".join([_wire_field(i.get("begin"), int), _wire_field(i.get("end"), int), _wire_field(i.get("name"), str),
+                                               _wire_field(i.get("source"), int), _wire_field(i.get("value"), str), _wire_field(i.get("jumpType"), str),
+                                               _wire_field(i.get("modifierDepth"), int)]) for i in items)
+        except TypeError as ex:
+            out.append({"path": list(path), "skipped": str(ex)})
+            continue
+        table, bcs, back = {}, [], []
+        try:
+            for i in items:
+                bc = parser_asm.build_asm_bytecode(dict(i), table)
+                v = bc.value
+                bcs.append("\x1f".join([str(bc.begin), str(bc.end), str(bc.source), str(bc.disasm),
+                                         "-" if v is None else ("=i%d" % v if isinstance(v, int) and not isinstance(v, bool) else "=s" + str(v)),
+                                         _wire_field(bc.jump_type, str), _wire_field(bc.modifier_depth, int), _wire_field(bc.real_value, str)]))
+                j = bc.to_json()
+                back.append("\x1f".join([_wire_field(j.get("begin"), int), _wire_field(j.get("end"), int), _wire_field(j.get("name"), str),
+                                          _wire_field(j.get("source"), int), _wire_field(j.get("value"), str), _wire_field(j.get("jumpType"), str),
+                                          _wire_field(j.get("modifierDepth"), int)]))
+            out.append({"path": list(path), "items": win, "n": len(items), "real": "\x1e".join(bcs) + "\x1d" + "\x1e".join(back)})
+        except Exception as ex:
+            out.append({"path": list(path), "items": win, "n": len(items), "real": "raise", "exception": "%s: %s" % (type(ex).__name__, ex)})
+    return {"sections": out}
+
+
+KINDS.update({"json_items": t_json_items})
+
+
 def t_plain_roundtrip(t):
     """parse plain text, print it both ways, parse again (C15)"""
     impl.constants._set_push0(bool(t.get("push0", True)))
